@@ -266,6 +266,18 @@ Theorem C20_slice_rect_taps_built : forall n0 n1 n2 a0 a1 a2 b0 b1 b2 sh h r c,
 Proof. exact rect_sperm_taps_built. Qed.
 Print Assumptions C20_slice_rect_taps_built.
 
+(* ROWS SUM TO ONE INSIDE THE VOLUME (axis-permuting rotation, rectangular profile 1/2 <= h <= width): if every voxel of the
+   pixel's line within distance h of the slice lies in the volume, the row sums to one within the 1e-6 regulariser; with
+   C20_slice_rowsum a constant volume v therefore gives v * (1 - delta), 0 <= delta <= 1e-6 *)
+Theorem C20_slice_axis_aligned_rows_sum_to_one : forall g r c a0 a1 a2 b0 b1 b2 h,
+  is_perm a0 a1 a2 -> rot g = sperm_mat a0 a1 a2 b0 b1 b2 -> prof g = rect h -> (1 # 2) <= h -> h <= inject_Z (width g) ->
+  Z.even (ny g) = Z.even (comp a1 (dimv g)) -> Z.even (nx g) = Z.even (comp a2 (dimv g)) ->
+  (forall pt, comp a1 pt = lat_y g a1 b1 r -> comp a2 pt = lat_x g a2 b2 c ->
+              Qabs (line_n g a0 b0 - inject_Z (comp a0 pt)) <= h -> inside g pt = true) ->
+  1 - eps <= row_sum g r c <= 1.
+Proof. exact rect_sperm_row_sums_to_one. Qed.
+Print Assumptions C20_slice_axis_aligned_rows_sum_to_one.
+
 (* _find_width (as repaired: integer test points -mx..mx, cdf thresholds 1 % / 99 %), ALL sizes mx:
    a profile that is the indicator of the integers L..R on the test grid (-mx <= L <= R <= mx, fewer than 100 of them, so
    that one tap is more than 1 % of the total) has width max(|L|, |R|) + 1 *)
